@@ -120,6 +120,11 @@ func (m *Module) Evaluation(
 	ctx.SetFrame(nextFrame)
 	ctx.SetClass(class)
 
+	// a body starts public, also when it is written inside a private or
+	// protected section of an enclosing class
+	ctx.EndPrivate()
+	ctx.EndProtected()
+
 	for {
 		nextT, err := p.Read()
 		if err != nil {
